@@ -354,12 +354,29 @@ def c05(mir):
                         exp = {"Array": {"inner_type": f["return_type"], "size": a[1]}}
                         if a[1] is None:
                             del exp["Array"]["size"]
-                        if len(f["args"]) >= 1 and erase_size(f["args"][0]["type"]) != erase_size(a[0]) and len(f["args"]) == 1:
+                        if len(f["args"]) == 1 and erase_size(f["args"][0]["type"]) != erase_size(a[0]):
                             v.append(("binding", f"{label}: Map#{k} binds parameter of type {f['args'][0]['type']} to elements of type {a[0]}"))
+                        elif len(f["args"]) == 2:
+                            # the accepted idiom: a two-parameter function over an array of pairs
+                            tt = a[0]["Tuple"] if isinstance(a[0], dict) and "Tuple" in a[0] else None
+                            if tt is None or erase_size(f["args"][0]["type"]) != erase_size(tt["left_type"]) \
+                                    or erase_size(f["args"][1]["type"]) != erase_size(tt["right_type"]):
+                                v.append(("binding", f"{label}: Map#{k} binds parameters {[x['type'] for x in f['args']]} to elements of type {a[0]}"))
+                        elif len(f["args"]) != 1:
+                            v.append(("binding", f"{label}: Map#{k} maps a function of {len(f['args'])} parameters"))
                 elif n == "Reduce":
                     f = fns.get(b["fn"])
                     if f:
                         exp = f["return_type"]
+                        a, i0 = arr(ty(b["inner"])), ty(b["initial"])
+                        if len(f["args"]) != 2:
+                            v.append(("binding", f"{label}: Reduce#{k} folds with a function of {len(f['args'])} parameters"))
+                        elif a and i0 is not None and (
+                                erase_size(f["args"][0]["type"]) != erase_size(i0)
+                                or erase_size(f["args"][1]["type"]) != erase_size(a[0])
+                                or erase_size(f["return_type"]) != erase_size(f["args"][0]["type"])):
+                            v.append(("binding", f"{label}: Reduce#{k} binds parameters {[x['type'] for x in f['args']]} -> {f['return_type']} "
+                                                 f"to accumulator {i0} and elements {a[0]}"))
                 elif n == "NadaFunctionCall":
                     f = fns.get(b["function_id"])
                     if f:
